@@ -22,7 +22,6 @@
 
 from serde import serde, strict, field
 from beartype.typing import Optional, List, Dict, Any
-import math
 
 from .metadata import MetaData
 
@@ -74,7 +73,7 @@ class Enum:
         if m == 1 or m == 0:
             return 1
         else:
-            return math.floor(math.log2(m) + 1)
+            return int(m).bit_length()
 
     def max(self) -> int:
         """Get max enum value."""
